@@ -32,23 +32,41 @@ def conflictHL (n m E : Nat) : Bool :=
 /-- the function does not panic on the inputs its callers produce -/
 theorem markers_no_panic (s n E : Nat) (hs : 1 ≤ s) (hsn : s ≤ n) (hn : n ≤ E) :
     (markers? s n E).isSome = true := by
-  sorry
+  have hp := past?_isSome hs
+  obtain ⟨p, hp⟩ := Option.isSome_iff_exists.1 hp
+  simp [markers?, hp, future?_eq (show 1 ≤ n by omega) hn]
 
-theorem past_lt_start (s x : Nat) (h : x ∈ past s) : 1 ≤ x ∧ x < s := by
-  sorry
+theorem past_lt_start (s x : Nat) (h : x ∈ past s) : 1 ≤ x ∧ x < s :=
+  Akd.Marker.past_bounds h
 
-theorem future_bounds (n E x : Nat) (h : x ∈ future n E) : n < x ∧ x ≤ E := by
-  sorry
+theorem future_bounds (n E x : Nat) (h : x ∈ future n E) : n < x ∧ x ≤ E :=
+  Akd.Marker.future_bounds h
 
 theorem succ_mem_future (n E : Nat) (hn : 1 ≤ n) (h : n + 1 ≤ E) : n + 1 ∈ future n E := by
-  sorry
+  obtain ⟨x, hx, hx' | hx'⟩ := exists_future_past hn (Nat.lt_add_one n) h
+  · subst hx'; exact hx
+  · have h1 := Akd.Marker.future_bounds hx
+    have h2 := Akd.Marker.past_bounds hx'
+    omega
 
 /-- **Full strength, unbounded**: no two history proofs with different latest versions are
 both consistent with one tree. -/
 theorem history_history_agree (s n s' m E : Nat)
     (hs : 1 ≤ s) (hsn : s ≤ n) (hs' : 1 ≤ s') (hsm : s' ≤ m) (hnm : n < m) (hmE : m ≤ E) :
     conflictHH n s' m E = true := by
-  sorry
+  have hn : 1 ≤ n := Nat.le_trans hs hsn
+  have _ := hs'  -- `1 ≤ s'` is not needed: `s' = 0` falls under `s' ≤ n + 1`
+  have key : ∃ x, x ∈ future n E ∧ (x ∈ past s' ∨ (s' ≤ x ∧ x ≤ m)) := by
+    by_cases hc : s' ≤ n + 1
+    · exact ⟨n + 1, succ_mem_future n E hn (by omega), Or.inr ⟨hc, by omega⟩⟩
+    · obtain ⟨x, hx, hx' | hx'⟩ :=
+        exists_future_past (n := n) (t := s') (E := E) hn (by omega) (by omega)
+      · exact ⟨x, hx, Or.inr ⟨by omega, by omega⟩⟩
+      · exact ⟨x, hx, Or.inl hx'⟩
+  obtain ⟨x, hx, hx'⟩ := key
+  simp only [conflictHH, List.any_eq_true, Bool.or_eq_true, Bool.and_eq_true, decide_eq_true_eq,
+    List.contains_iff_mem]
+  exact ⟨x, hx, hx'⟩
 
 /-- a lookup for a version below the history's latest is always contradicted (stale `m`). -/
 theorem lookup_below_history (n m E : Nat) (h : m < n) : conflictHL n m E = true := by
@@ -57,12 +75,22 @@ theorem lookup_below_history (n m E : Nat) (h : m < n) : conflictHL n m E = true
 /-- the next version is always contradicted. -/
 theorem lookup_succ_history (n E : Nat) (hn : 1 ≤ n) (h : n + 1 ≤ E) :
     conflictHL n (n + 1) E = true := by
-  sorry
+  have hlt : ¬ n + 1 < n := by omega
+  simp only [conflictHL, hlt, if_false, List.any_eq_true, Bool.or_eq_true, beq_iff_eq]
+  exact ⟨n + 1, succ_mem_future n E hn h, Or.inl rfl⟩
 
 /-- exact characterisation for `n < m`. -/
 theorem lookup_history_conflict_iff (n m E : Nat) (h : n < m) :
     conflictHL n m E = true ↔ (m ∈ future n E ∨ 2 ^ Nat.log2 m ∈ future n E) := by
-  sorry
+  have hlt : ¬ m < n := by omega
+  simp only [conflictHL, hlt, if_false, List.any_eq_true, Bool.or_eq_true, beq_iff_eq]
+  constructor
+  · rintro ⟨x, hx, rfl | rfl⟩
+    · exact Or.inl hx
+    · exact Or.inr hx
+  · rintro (h | h)
+    · exact ⟨_, h, Or.inl rfl⟩
+    · exact ⟨_, h, Or.inr rfl⟩
 
 /-- **The full-strength lookup/history clause is false for the code as it is**: smallest gap. -/
 theorem lookup_history_gap_witness : conflictHL 4 7 7 = false := by decide
